@@ -1,4 +1,4 @@
-import MCHap.Proofs.Trie
+import MCHap.Proofs.TrieRefine
 
 /-!
 # C09 — likelihood caches are transparent; the carried likelihood always equals the recomputed one
@@ -76,35 +76,101 @@ theorem flushed_empty (m : AMap) (key : List ℕ) : m.flushed.get key = none := 
 
 /-- the node loop of the model is `insertPath` plus length bookkeeping: when it completes normally
     the tree, the allocation pointer and the leaf are those of `insertPath`, and nothing else changed -/
-theorem insertLoop_ok (e : Bool) : ∀ (key : List ℕ) (m : AMap) (node : ℕ) (m1 : AMap) (leaf : ℕ),
-    insertLoop e m node key = (.ok m1, leaf) →
+theorem insertLoop_ok (e : Bool) (key : List ℕ) (m : AMap) (node : ℕ) (m1 : AMap) (leaf : ℕ)
+    (h : insertLoop e m node key = (.ok m1, leaf)) :
     m1.tree = (insertPath m.tree m.emptyNode node key).1 ∧
     m1.emptyNode = (insertPath m.tree m.emptyNode node key).2.1 ∧
     leaf = (insertPath m.tree m.emptyNode node key).2.2 ∧
     m1.values = m.values ∧ m1.emptyValues = m.emptyValues ∧ m1.valuesLen = m.valuesLen ∧
-    m1.keyLen = m.keyLen ∧ m1.maxSize = m.maxSize := by
-  intro key
-  induction key with
-  | nil =>
-    intro m node m1 leaf h
-    simp only [insertLoop, Prod.mk.injEq, SetResult.ok.injEq] at h
-    obtain ⟨rfl, rfl⟩ := h
-    simp [insertPath]
-  | cons j js ih =>
-    intro m node m1 leaf h
-    unfold insertLoop at h
-    unfold insertPath
-    by_cases hnull : m.tree node j < 0
-    · simp only [hnull, if_true] at h ⊢
-      split at h
-      · split at h
-        · split at h <;> simp at h
-        · have := ih _ _ _ _ h
-          simpa using this
-      · have := ih _ _ _ _ h
-        simpa using this
-    · simp only [hnull, if_false] at h ⊢
-      exact ih _ _ _ _ h
+    m1.keyLen = m.keyLen ∧ m1.maxSize = m.maxSize := Trie.insertLoop_ok' e key m node m1 leaf h
+
+/-! ### the refinement: a well-formed `arraymap` IS a finite map -/
+
+/-- a new map is well-formed (and represents the empty map) -/
+theorem Inv_new (kl br ini mx : ℕ) : Inv (AMap.new kl br ini mx) := Trie.Inv_new kl br ini mx
+
+/-- `get` returns exactly the represented map; a miss is the NaN sentinel -/
+theorem get_eq_abs (m : AMap) (h : Inv m) (key : List ℕ) : m.get key = absGet m key :=
+  Trie.get_eq_abs m h key
+
+/-- **`arraymap.set` refines the finite-map update**: on a well-formed map, `set key v` yields a
+    well-formed map representing `old[key ↦ v]` (through every combination of node allocation,
+    tree growth, value-slot allocation and value-array growth), or — on overflow — a well-formed
+    empty map (`empty_if_full`) / the `ValueError` outcome; nothing else -/
+theorem set_refines (m : AMap) (h : Inv m) (key : List ℕ) (hk : key.length = m.keyLen) (v : Option ℚ)
+    (e : Bool) (res : SetResult) :
+    m.set key v e = res →
+    match res with
+    | .ok m' => Inv m' ∧ m'.keyLen = m.keyLen ∧
+        ∀ key', key'.length = m.keyLen → absGet m' key' = if key' = key then v else absGet m key'
+    | .flushed m' => Inv m' ∧ m'.keyLen = m.keyLen ∧ ∀ key', absGet m' key' = none
+    | .full => True := Trie.set_refines m h key hk v e res
+
+/-- every stored value of the concrete map is `f key` -/
+def AMapCoherent (f : List ℕ → ℚ) (m : AMap) : Prop :=
+  ∀ key q, key.length = m.keyLen → m.get key = some q → q = f key
+
+/-- **transparency of the concrete cache, one step**: storing `f key` in a well-formed coherent map
+    gives a well-formed coherent map, whatever growth or flush the call triggers -/
+theorem amap_coherent_set (f : List ℕ → ℚ) (m : AMap) (h : Inv m) (hc : AMapCoherent f m)
+    (key : List ℕ) (hk : key.length = m.keyLen) (e : Bool) (m' : AMap)
+    (hm : (m.set key (some (f key)) e).map = some m') :
+    Inv m' ∧ m'.keyLen = m.keyLen ∧ AMapCoherent f m' := by
+  have hr := Trie.set_refines m h key hk (some (f key)) e _ rfl
+  cases hs : m.set key (some (f key)) e with
+  | full => rw [hs] at hm; simp [SetResult.map] at hm
+  | flushed mf =>
+    rw [hs] at hm hr
+    simp only [SetResult.map, Option.some.injEq] at hm
+    subst hm
+    obtain ⟨i1, i2, i3⟩ := hr
+    refine ⟨i1, i2, ?_⟩
+    intro key' q _ hg
+    rw [Trie.get_eq_abs _ i1, i3 key'] at hg
+    cases hg
+  | ok mo =>
+    rw [hs] at hm hr
+    simp only [SetResult.map, Option.some.injEq] at hm
+    subst hm
+    obtain ⟨i1, i2, i3⟩ := hr
+    refine ⟨i1, i2, ?_⟩
+    intro key' q hk' hg
+    rw [i2] at hk'
+    rw [Trie.get_eq_abs _ i1, i3 key' hk'] at hg
+    by_cases hkk : key' = key
+    · simp only [hkk, if_true, Option.some.injEq] at hg
+      rw [hkk]; exact hg.symm
+    · simp only [hkk, if_false] at hg
+      rw [← Trie.get_eq_abs m h] at hg
+      exact hc key' q hk' hg
+
+/-- … and over every history of stores starting from a new map (any sizes): the map stays well-formed
+    and every later hit returns `f key` -/
+theorem amap_transparent (f : List ℕ → ℚ) (kl br ini mx : ℕ) (e : Bool) :
+    ∀ (keys : List (List ℕ)) (m : AMap), Inv m → m.keyLen = kl → AMapCoherent f m →
+      (∀ k ∈ keys, k.length = kl) →
+      ∀ mEnd, keys.foldl (fun (acc : Option AMap) k => acc.bind (fun m => (m.set k (some (f k)) e).map))
+        (some m) = some mEnd → Inv mEnd ∧ AMapCoherent f mEnd := by
+  have _ := (br, ini, mx)
+  intro keys
+  induction keys with
+  | nil => intro m h _ hc _ mEnd he; simp at he; subst he; exact ⟨h, hc⟩
+  | cons k ks ih =>
+    intro m h hkl hc hks mEnd he
+    simp only [List.foldl_cons, Option.bind_some] at he
+    cases hs : (m.set k (some (f k)) e).map with
+    | none =>
+      rw [hs] at he
+      have : ∀ l : List (List ℕ), l.foldl (fun (acc : Option AMap) k =>
+          acc.bind (fun m => (m.set k (some (f k)) e).map)) none = none := by
+        intro l; induction l with
+        | nil => rfl
+        | cons a t iht => simpa using iht
+      rw [this] at he; cases he
+    | some m' =>
+      rw [hs] at he
+      obtain ⟨i1, i2, i3⟩ := amap_coherent_set f m h hc k (by rw [hkl]; exact hks k (by simp)) e m' hs
+      exact ih m' i1 (by rw [i2, hkl]) i3 (fun k' hk' => hks k' (List.mem_cons_of_mem _ hk')) mEnd he
 
 /-! ### abstract cache layer -/
 
